@@ -26,12 +26,15 @@ THEOREMS = {
             "deltaCap_homogeneous", "isClose_scale_of_decisive", "isClose_not_unit_free", "roundDec_unit", "unit_change_step",
             "unit_hyps_step", "unit_change_run", "scale_run_dimensionless", "mkParams_scale", "initEcon_scale", "trackerInit_unit",
             "trackerInit_curveHomog", "unit_change_simulation", "closeAgree_of_decisive", "closeAgree_of_exact"],
-    "C18": ["psi_one_params", "psi_one_step", "psi_one_run", "alt_share_eq_fixed_share", "alt_eq_noalt", "alt_ne_noalt_zero_capacity"],
+    "C18": ["psi_one_params", "psi_one_step", "psi_one_run", "alt_share_eq_fixed_share", "alt_eq_noalt", "alt_ne_noalt_zero_capacity",
+            "alt_noalt_event_free_run", "alt_noalt_event_free_loop"],
     "C09": ["damage_before_recovery", "wake_ledgers", "damage_after", "arb_after", "finished_when_zero", "finished_no_loss",
             "linear_range", "convexe_range", "linear_antitone", "convexe_antitone", "linear_zero_at_tau", "linear_zero_after_tau",
-            "linear_finished_at_tau", "rounded_range", "rounded_close", "concave_shape"],
+            "linear_finished_at_tau", "rounded_range", "rounded_close", "concave_shape",
+            "run_same_events", "recovery_trajectory", "arbitrary_trajectory", "linear_finished_run"],
     "C10": ["lifecycle_status", "lifecycle_same_event", "post_status", "status_edges", "status_kind_step", "status_timeline_step",
-            "status_timeline", "shock_in_force", "pending_invisible", "prefix_event_free"],
+            "status_timeline", "shock_in_force", "pending_invisible", "prefix_event_free",
+            "onScheduleDt_one", "status_timeline_step_dt", "status_timeline_dt", "shock_in_force_dt", "prefix_event_free_dt"],
     "C11": ["no_internal_error", "ids_lifecycle", "ids_receive", "demand_own_block", "other_blocks_empty", "credit_own_block",
             "finished_no_more", "aggregates_perm", "rebuild_total_perm", "perm_observables_step_partial", "perm_invariant_run",
             "Layout.writer_reader_agree", "Layout.blocks_inside", "Layout.blocks_disjoint", "Layout.blocks_cover", "Layout.blocks_partition",
@@ -47,7 +50,7 @@ THEOREMS = {
     "C15": ["Labels.canon_sorted", "Labels.canon_perm_self", "Labels.canon_perm", "Labels.values_perm", "Labels.canonTable_perm",
             "Labels.widen_perm", "Labels.widen_get", "Labels.ingest_factors"],
     "C16": ["Records.rows_faithful", "Records.rows_fill", "Records.untracked_never_written", "Records.storage_independent",
-            "Records.early_stop_intact", "Records.crash_row", "Records.phase_order", "Records.guards_complete",
+            "Records.early_stop_intact", "Records.crash_row", "Records.run_time", "Records.stepwise_eq_loop", "Records.phase_order", "Records.guards_complete",
             "Records.helpers_write_own_row", "Records.specs_bijective", "Records.writes_after_their_phase"],
     "C17": ["Storage.run_function", "Storage.isolation", "Storage.fresh_defaults_distinct", "Storage.shared_default_breaks_isolation",
             "Storage.ingest_preserves", "Storage.event_reusable", "Storage.defaults_safe"],
@@ -67,6 +70,9 @@ MODULES["C08"] = ["Boario.Properties.C08", "Boario.Properties.Reach"]
 MODULES["C06"] = ["Boario.Properties.C06", "Boario.Properties.Reach"]
 MODULES["C11"] = ["Boario.Properties.C11", "Boario.Properties.C11Run", "Boario.Properties.LayoutThm", "Boario.Properties.Slices"]
 MODULES["C13"] = ["Boario.Properties.C13", "Boario.Properties.C13Run"]
+MODULES["C09"] = ["Boario.Properties.C09", "Boario.Properties.C09Run"]
+MODULES["C10"] = ["Boario.Properties.C10", "Boario.Properties.C10Dt"]
+MODULES["C18"] = ["Boario.Properties.C18", "Boario.Properties.C18Run"]
 MODULES["C04"] = ["Boario.Properties.C04", "Boario.Properties.LayoutThm", "Boario.Properties.Slices"]
 
 # scenario streams: (stream name, number of scenarios quick, thorough)
@@ -156,7 +162,7 @@ CLAIMS = {
             "note": _NOTE, "technique": "Lean 4 theorems + differential correspondence of the three impact constructors"},
     "C15": {"text": "Theorems canon_perm (every ordering of a labelled input has the same canonical form), canon_sorted, canon_perm_self, values_perm, canonTable_perm (rows and columns of a table), widen_perm / widen_get (label-based widening), ingest_factors (anything computed from the canonical form is independent of the order). Partial: bit-identity is a statement about floats; it follows only if the implementation does no arithmetic before canonicalising, which is what the check establishes dynamically: arrays ingested from permuted inputs must equal the canonical arrays exactly, and whole runs on permuted inputs are compared bit for bit.",
             "note": _NOTE, "technique": "Lean 4 theorems (partial, see text) + exact ingestion correspondence + bitwise paired runs on permuted inputs"},
-    "C16": {"text": "Theorems on the record-layer model: rows_faithful, rows_fill, untracked_never_written, storage_independent (the log does not depend on which records are files), early_stop_intact, crash_row; and on tables REGENERATED from the source on every run: phase_order (the statements of next_step, in order), guards_complete (each write guard tests its own name against files then memory), helpers_write_own_row, specs_bijective, writes_after_their_phase. Partial: that memmap files read back equal the memory and that the JSON artefacts describe the run is library / OS behaviour, checked by reading back on generated runs (record subsets x register_stocks x loop / manual x stopping point).",
+    "C16": {"text": "Theorems on the record-layer model, for every step length dt (rows are indexed by temporal unit: step j writes row j*dt, rows in between keep the fill value): rows_faithful, rows_fill, run_time, stepwise_eq_loop (a run is its first i steps continued by the others: one step at a time = loop), untracked_never_written, storage_independent (the log does not depend on which records are files), early_stop_intact, crash_row; and on tables REGENERATED from the source on every run: phase_order (the statements of next_step, in order), guards_complete (each write guard tests its own name against files then memory), helpers_write_own_row, specs_bijective, writes_after_their_phase. Partial: that memmap files read back equal the memory and that the JSON artefacts describe the run is library / OS behaviour, checked by reading back on generated runs (record subsets x register_stocks x loop / manual x stopping point).",
             "note": _NOTE + " The translator harness/translate.py (Python ast) is trusted to extract the statements of next_step and the record tables faithfully; unknown syntax is emitted as `unknown` items, which makes the theorems fail.",
             "technique": "Lean 4 theorems on a record-layer model + `rfl`/`decide` theorems on tables regenerated from the source by a translator + read-back of every record and JSON artefact"},
     "C17": {"text": "Theorems run_function (the model is a function of its inputs), isolation (on a key -> file world: with pairwise distinct keys a simulation reads back exactly its own rows whatever else is constructed or run), fresh_defaults_distinct, shared_default_breaks_isolation (witness of the repaired defect), ingest_preserves and event_reusable (copy-before-mutate leaves caller objects unchanged), defaults_safe (`decide` on the default-argument table REGENERATED from the source: no default is a call evaluated at definition time, no mutable default is mutated). Partial: that the Python code follows the copying discipline and allocates keys per instance is a fact about object identity at run time, established only dynamically (deep snapshots of caller objects, interleaved histories of live simulations compared bitwise with isolated runs, Event reuse).",
@@ -166,9 +172,9 @@ CLAIMS = {
             "note": _NOTE, "technique": "Lean 4 refinement theorem (code-shaped model vs equation-shaped spec) + per-step correspondence of all six phases"},
     "C19": {"text": "Theorem shift_invariance: for every valid table and configuration, every event set (all pending at t = 0, occurrences and durations >= 1), every shift k and every horizon n, the run with all events delayed by k, observed from step k on, is the original run delayed by k - exactly, in the rational model, by induction over the run. It chains equilibrium_step_exact (an event-free step at the initial equilibrium returns exactly the same state), C10's invisibility of pending events, shift_step (from the third step on the step map commutes with the shift: the event layer only sees t - occ), shift_step_early + overprod_identity_at_rest (skipping the overproduction module for the first two steps is harmless at rest) and shift_run_partial. 'To within rounding' for the implementation is checked on paired runs of the real code (every event delayed by k = 1..12, first occurrences 1..3).",
             "note": _NOTE, "technique": "Lean 4 theorems (simulation relation under a time shift, induction over the run) + paired runs of the real code"},
-    "C09": {"text": "Theorems damage_before_recovery, damage_after / arb_after (damage in force = rounded recovery function at the elapsed time, for built-ins and user callables alike), finished_when_zero, finished_no_loss, range / antitonicity of the three rational built-ins, linear_zero_at_tau, linear_finished_at_tau, rounded_range / rounded_close, concave_shape (for any monotone g; that k^e is such a g is a fact about real powers outside the rational model). Schedule statements for step length 1. recover_events compared per step on all four curves.",
+    "C09": {"text": "Run level (C09Run): recovery_trajectory / arbitrary_trajectory (in every run from t = 0, after k steps the ledger of a recovering event is its initial damage until occ + dur, then the rounded recovery function at the number of recovery steps completed, or none once the rounded curve has been all-zero), linear_finished_run. Per step: theorems damage_before_recovery, damage_after / arb_after (damage in force = rounded recovery function at the elapsed time, for built-ins and user callables alike), finished_when_zero, finished_no_loss, range / antitonicity of the three rational built-ins, linear_zero_at_tau, linear_finished_at_tau, rounded_range / rounded_close, concave_shape (for any monotone g; that k^e is such a g is a fact about real powers outside the rational model). Schedule statements for step length 1. recover_events compared per step on all four curves.",
             "note": _NOTE, "technique": "Lean 4 theorems + per-step correspondence of EventTracker.recover (concave: raw curve values taken from the code, rounding modelled)"},
-    "C10": {"text": "Theorems lifecycle_status, status_edges, status_kind_step, status_timeline_step and status_timeline (induction over the run: pending / happening / later stage exactly on schedule), shock_in_force, pending_invisible, prefix_event_free (the run with events equals the run without before the earliest occurrence), for step length 1. The life-cycle phase and ledgers compared per step; prefix checked bitwise on paired runs.",
+    "C10": {"text": "For every step length (C10Dt): status_timeline_dt, status_timeline_step_dt, shock_in_force_dt, prefix_event_free_dt (steps at times 0, dt, 2dt, ...: pending iff t < occ + dt, happening iff occ + dt <= t < occ + dur + dt, later stage afterwards; in force during the step at time t iff occ <= t). For dt = 1: theorems lifecycle_status, status_edges, status_kind_step, status_timeline_step and status_timeline (induction over the run: pending / happening / later stage exactly on schedule), shock_in_force, pending_invisible, prefix_event_free (the run with events equals the run without before the earliest occurrence), for step length 1. The life-cycle phase and ledgers compared per step; prefix checked bitwise on paired runs.",
             "note": _NOTE, "technique": "Lean 4 theorems (induction over steps, simulation of the event-free run) + per-step correspondence of the event phases + paired runs"},
     "C11": {"text": "Theorems no_internal_error (from the well-formedness invariant, preserved by every step: C20's inv_step), ids_lifecycle / ids_receive (block ids of rebuilding events stay distinct and in range, also when events finish), demand_own_block, other_blocks_empty, credit_own_block, finished_no_more, aggregates_perm, rebuild_total_perm, the Layout theorems (writer and reader address the same columns; blocks disjoint and covering) together with the regenerated slice table of the source (Gen/Slices.lean; writer_is_layout, reader_is_layout, code_writer_reader_agree: the column expressions of update_rebuild_demand and rebuild_prod_*_event are those ranges for all sizes), and perm_invariant_run: two simulations that differ only by the order of their event list have, after any number of steps, the same observable state (everything the records expose, and the same events with the same ledgers, block ids aside) and one run succeeds iff the other does - by a simulation relation preserved by every phase, induction over the run. 'Beyond rounding' for the implementation and the three ways of adding events are checked on paired runs (shuffled lists at 1e-9, adding modes bitwise).",
             "note": _NOTE, "technique": "Lean 4 theorems (invariant by induction; simulation relation up to block renaming for order independence) + per-step correspondence of the whole event layer + paired runs"},
@@ -180,7 +186,7 @@ CLAIMS = {
             "note": _NOTE, "technique": "Lean 4 theorems + correspondence of EventTracker construction and ledger updates"},
     "C13": {"text": "Theorems conversion_uniform, reexpression_invariant (same ledgers for the same event in any unit), and homogeneity of capacity, production, overproduction, deliveries, orders (same closeness branch), inventory gap and capacity-loss share. Run level (Properties/C13Run.lean): unit_change_run / unit_change_simulation - the same economy expressed in a unit 10^k times smaller (table x 10^k, model factor / 10^k, same events) gives, after any number of steps, exactly the scaled state (the ledgers keep k fewer decimals: the quantum is the same amount of money, roundDec_unit), and scale_run_dimensionless - any positive factor when no event carries a monetary ledger - both under the explicit hypothesis CloseAgree that the two allclose tests of each step take the same branch in both units (closeAgree_of_decisive / closeAgree_of_exact give sufficient conditions; isClose_not_unit_free shows the hypothesis cannot be dropped: NumPy's absolute tolerance 1e-8 is not a monetary amount). Partial: for a common factor that is not a unit change the decimal quantum does not follow, so whole-run scaling holds only to within rounding; that residue, and the float implementation of all of the above, is checked on paired runs of the real code (events in other units, table x {8, 1e3, 1e6}, unit change by 10^3 / 10^6), not proved.",
             "note": _NOTE, "technique": "Lean 4 theorems (partial, see text) + correspondence of tracker construction + paired runs across units and scales"},
-    "C18": {"text": "Theorems psi_one_params (both classes get identical parameters when psi = 1 and the restoration time is one step, hence psi_one_step/_run), alt_share_eq_fixed_share and alt_eq_noalt (uniform non-zero relative capacity), alt_ne_noalt_zero_capacity (boundary witness). Bit-identity of the implementation (x1.0 exact in IEEE-754) is checked on paired runs, not proved.",
+    "C18": {"text": "Theorems psi_one_params (both classes get identical parameters when psi = 1 and the restoration time is one step, hence psi_one_step/_run), alt_share_eq_fixed_share and alt_eq_noalt (uniform non-zero relative capacity), alt_ne_noalt_zero_capacity (boundary witness), alt_noalt_event_free_run / _loop (the event-free runs of the two variants coincide at every step). Bit-identity of the implementation (x1.0 exact in IEEE-754) is checked on paired runs, not proved.",
             "note": _NOTE, "technique": "Lean 4 theorems + paired runs (base vs psi=1, alt vs noalt) compared bitwise / at 1e-9"},
     "C03": {"text": "Theorems production_nonneg / _le_demand / _le_capacity / _le_stock_support / _eq_min3 / _tight / _branches_agree hold for every table size, parameter value and state (Lean 4, no bound); the production phase of the model is checked against calc_production on every explored step.",
             "note": _NOTE, "technique": "Lean 4 theorems on an exact-rational model + per-step correspondence of calc_production"},
